@@ -10,7 +10,7 @@ CHECKS = {
             'Generated-input search (Hypothesis, 16 shards) over shape-aware expression trees of 1-7 operators on '
             'dvar/rvar/ldr/slices/constants in ro and dro; every node is compared with NumPy (shape equality and values '
             'at two integer assignments), so a wrong selector matrix in any operator on any generated rank/broadcast '
-            'pattern is reported with the innermost failing operator as bucket. Sampling, not proof.',
+            'pattern is reported with the innermost failing operator as bucket. Sparse right operands of + / -, decision rules read through permuting indices beside a declared random array, and operators that return None / NotImplemented are covered. Sampling, not proof.',
             'Trusts NumPy as the reference; values observed through Affine.linear/const and RoAffine.raffine/affine; '
             'array sizes capped at 192 entries (rank is not capped below 5); empty arrays not generated; RSOME raising '
             'where NumPy succeeds is allowed by the statement and only counted.',
@@ -30,7 +30,7 @@ CHECKS = {
             'semi-infinite LP (scipy HiGHS master, exact separation oracle) vs model.get()',
             'Generated-input search over ro models whose sets admit an exact independent maximiser; the reported optimum is '
             'compared with the optimum of the semi-infinite problem over (x, y0, Y restricted to the declared dependencies) solved '
-            'without RSOME. Both directions are checked (unsafe and conservative). Sampling, not proof.',
+            'without RSOME. Both directions are checked (unsafe and conservative). Products of plain unit balls are generated; a counterpart that ECOS and Gurobi both report infeasible while the reference has an optimum is a violation. Sampling, not proof.',
             'Reference = cutting planes with separation points verified as members; non-convergence / artificial bounds / cone '
             'solver failures are inconclusive; tolerance 1e-6 (LP) / 2e-4 (conic) relative.',
             'DESIGN.md section 4 / C02'),
@@ -39,7 +39,7 @@ CHECKS = {
             'Generated-input search over deterministic LP/SOC/exp-cone models (8 bound patterns per variable incl. fixed at c!=0, '
             '<=,>=,== rows, norm/square/quad/p-norm/power/gmean/exp/log/entropy/softplus/perspective atoms, rsocone/expcone/kldiv '
             'constraints, ro and dro front ends) and over ro models with robust rows (second SOC-dual layout, mixed SOC+exp cones). '
-            'Sampling, not proof.',
+            'Half of the ro models use products of plain unit balls (several unit-coefficient cones in one set). Sampling, not proof.',
             'Trusts HiGHS (LP) and ECOS (conic) optima; ECOS "close to optimal"/failed statuses are inconclusive; tolerance 1e-6 / 2e-4 '
             'relative; models are feasible, bounded and strictly feasible by construction.',
             'DESIGN.md section 4 / C08'),
@@ -49,7 +49,7 @@ CHECKS = {
             'spellings, with multipliers, offsets and double negation, as constraint and as objective, with continuous/integer/'
             'binary variables, in ro and dro; the objective is aimed at a focus constraint so that a dropped or replaced '
             'constraint shows as a positive residual, a dropped objective as get() != f(x*) or a solver certificate of '
-            'unboundedness on a box-bounded model. Sampling, not proof.',
+            'unboundedness on a box-bounded model. One case in eight is an element-wise atom whose row argument broadcasts against a column-shaped bound / offset / perspective scale (all k*n written constraints are evaluated). Sampling, not proof.',
             'Own NumPy formulas for all atoms; tolerance 1e-6 (LP/MILP) / 5e-5 (conic) times the row scale; closure points of cones '
             '(z=0 in expcone, p=0 in kldiv/entropy) accepted within 1e-6; ECOS failures skipped; integer + exp-cone models not '
             'generated (ECOS_BB is not exact).',
@@ -69,7 +69,7 @@ CHECKS = {
             'subtraction of constants/affine expressions) x comparison direction and side x use as constraint or min/max objective, '
             'for all 21 atoms in ro and dro, plus the bilinear products the statement lists. Unsound acceptance, acceptance followed '
             'by a crash, and wrong meaning of an accepted constraint/objective are violations; over-rejection is only counted. '
-            'Sampling, not proof.',
+            'Enumerated every run: convex / concave atoms placed around an affinely adaptive dro decision must be refused or be robust at both end points of the support. Sampling, not proof.',
             'The 30-line calculus in vf/props/c10.py is the reference for curvature; feasibility of pinned models decided by HiGHS/ECOS '
             'with a 0.05 margin around the boundary; E(piecewise) expressions and piecewise functions of random variables are not '
             'generated here.',
@@ -79,14 +79,14 @@ CHECKS = {
             'Generated-input search over feasible bounded continuous LPs (all bound patterns, <=,>=,== rows in four spellings, bounds as '
             'arrays / entries / rows, min and max, split variable arrays, redundant abs/norm rows interleaving auxiliary rows); the '
             'values of dual() from HiGHS, Gurobi and ECOS must each form an optimal dual certificate of the user model. The identities '
-            'hold for every optimal dual, so degenerate optima cannot raise an alarm. Sampling, not proof.',
+            'hold for every optimal dual, so degenerate optima cannot raise an alarm. In one case of three the model is solved, extended by a slack constraint and solved again before dual() is read. Sampling, not proof.',
             'Row orientation follows the statement (>= as <= of the negation, == as written); tolerance 1e-6 / 1e-5 (ECOS) relative; '
             'ro front end only.',
             'DESIGN.md section 4 / C14'),
     'C16': ('property-based round-trip testing: lp_export() text parsed by a strict LP-format reader written for the check (entry-wise '
             'comparison with the formula) and by gurobipy.read (solve and compare optimum); show() frame compared cell by cell',
             'Generated-input search over compiled LP/MILP/SOCP/MISOCP formulas incl. odd coefficient magnitudes, exponent notation, '
-            'signed zeros, empty rows, infinite bounds, typed columns with user bounds and cone rows. Sampling, not proof.',
+            'signed zeros, empty rows, infinite bounds, typed columns with user bounds and cone rows. Finite bounds with more than six significant digits are generated. Sampling, not proof.',
             'The strict reader accepts only the LP-format subset RSOME writes; Gurobi is the independent reader/solver in solve mode; '
             'exp-cone programs are outside the LP format.',
             'DESIGN.md section 4 / C16'),
@@ -96,14 +96,14 @@ CHECKS = {
             'rows, and over mixed LP/SOC/exp models (also with integer columns for the structural part): relative error <= 1e-3 '
             '(+solver tolerance) for every degree >= 4 whenever all exponents of the exact solution lie in [-4,4]; original rows, '
             'senses, constants, bounds, types and objective must be an unchanged prefix; the cached formula must not be modified '
-            'and solve() after soc_solve() must reproduce the exact optimum. Sampling, not proof.',
+            'and solve() after soc_solve() must reproduce the exact optimum. User-supplied cut-off values containing the exponent are generated (tight, asymmetric). Sampling, not proof.',
             'Relative error measured against the magnitude of the approximated terms (absolute 1e-3 per log-type term); softplus '
             'arguments limited to [-3.5,4] because its internal exponent is u - t; Gurobi size-limited licence failures are skipped.',
             'DESIGN.md section 4 / C18'),
     'C19': ('property-based differential testing: two builds / repeated do_math and solve / snapshots around solve compared exactly; '
             'user arrays compared byte-wise; digests recomputed in fresh interpreters with other hash seeds',
             'Generated-input search over deterministic and ro models (C06/C01 generators) and a data-handling model consuming user '
-            'arrays of four dtypes, strided views, read-only arrays and scipy sparse matrices in every API position. Sampling, not proof.',
+            'arrays of four dtypes, strided views, read-only arrays and scipy sparse matrices in every API position. The data model is rebuilt with every writable user array overwritten after the declarations: the program must not move. Sampling, not proof.',
             'Exact equality of standard forms; RNG state compared via numpy.random.get_state/random.getstate; the cross-process part '
             'compares sha1 digests of dense standard forms from 4 fresh interpreters.',
             'DESIGN.md section 4 / C19'),
@@ -121,7 +121,7 @@ CHECKS = {
             'exact primal moment LP as inner problem; plus direct sample-average LP and ro-front-end oracles for the two special cases',
             'Generated-input search over the statement\'s domain (polytope supports, polyhedral expectation/probability sets, '
             'piecewise-affine integrands, event-wise affine adaptation); both directions (unsafe / conservative) are violations. '
-            'Sampling, not proof.',
+            'One case in ten writes expectation constraints as equalities E(a.x + g.z + x\'Gz) == c under E(z) == mu and is compared with the LP they denote. Sampling, not proof.',
             'Reference trusted: vertex enumeration (<= 40 half-spaces, dimension <= 4) + scipy HiGHS; non-convergence and artificial '
             'bounds are inconclusive; tolerance 1e-6 relative.',
             'DESIGN.md section 4 / C04'),
@@ -140,7 +140,7 @@ CHECKS = {
             'Generated-input search over variable ranks and index queries, dependency masks declared in random adapt() orders, scenario '
             'labelings (int/str/reversed) and partitions from random adapt() sequences, affine / bi-affine (with assigned '
             'realisations) / convex expressions with multipliers and offsets, min and max. Wrong numbers, wrong shapes, wrong labels '
-            'and NaN patterns that differ from the declared mask are violations. Sampling, not proof.',
+            'and NaN patterns that differ from the declared mask are violations. Perspective atoms are evaluated with numeric and affine scales; a bi-affine dro expression is evaluated at realisations given for all scenarios and / or scenario by scenario in both argument orders. Sampling, not proof.',
             'Expressions whose evaluation RSOME does not support (raises) are counted, not failed; assign() on slices of random '
             'variables and E(...) evaluation are outside the generated domain.',
             'DESIGN.md section 4 / C12'),
@@ -149,7 +149,7 @@ CHECKS = {
             'Generated-input search over LP/MILP/SOCP/MISOCP/exp-cone programs solved through every installed interface that supports '
             'them (default HiGHS, Gurobi, OR-Tools GLOP/SCIP, ECOS/ECOS_BB): equal optima, returned vectors checked against the '
             'compiled program (rows, senses, bounds, integrality, cone membership), and no fabricated solution on infeasible/'
-            'unbounded programs (NaN objective, x None, get() raises RuntimeError). Sampling, not proof.',
+            'unbounded programs (NaN objective, x None, get() raises RuntimeError). Infeasible instances are also made infeasible by a row without terms (0 >= 2) or by a binary whose user bounds exclude 0 and 1. Sampling, not proof.',
             'CLP/CPLEX/Mosek/COPT interfaces cannot be exercised (solvers not installed); ECOS_BB (integers through ECOS) not exercised (can run for minutes on trivial programs); ECOS numerical '
             'failures on feasible programs skipped; exp-cone programs have a single interface (vector check only).',
             'DESIGN.md section 4 / C11'),
@@ -185,8 +185,10 @@ CHECKS = {
     'C17': ('property-based differential testing of model isolation (interleaved build/solve of two generated models vs each model alone) '
             'plus exhaustive enumeration of a misuse catalogue that must raise no later than solve()',
             'Generated-input search over pairs of deterministic / robust / dro models in six interleavings (with re-solves of one model '
-            'after the other was built or solved), and the full catalogue of 19 misuse patterns x 4 ro/dro pairings x 2 timings x 2 '
-            'sizes enumerated on every run. An accepted misuse with a readable result, or an optimum that changes when another model '
+            'after the other was built or solved), and the full catalogue of 64 misuse patterns (incl. bi-affine piecewise pieces, scenario sets and random variables of another '
+            'model in adapt() and in decision-rule queries, failed models read through every interface) x 4 ro/dro pairings x 2 timings x 2 '
+            'sizes enumerated on every run, each foreign-object pattern with a positive control; a solver parameter given to one solve() '
+            'must not change the brute-force-verified optimum of the next model. An accepted misuse with a readable result, or an optimum that changes when another model '
             'exists in the process, is a violation. Sampling plus a finite enumeration, not proof.',
             'Interleaving is at the granularity of whole-model build and solve steps (a second model is never built in the middle of '
             'another model\'s constraint list); cone-solver failures skipped.',
